@@ -22,7 +22,7 @@ class C08(Prop):
             'non-trivial = at least one fill; distinct = hash of the configuration')
 
     def gen(self, rng, tier):
-        n = 160 if tier == 'quick' else 1500
+        n = 260 if tier == 'quick' else 1500
         out = [sl.gen_session(rng, tier, fixed_only=True, all_quoted=True, allow_dynamic=False,
                               max_days=(45 if tier == 'quick' else 400)) for _ in range(n)]
         # every alpha model, static and dynamic universes: the rules driven by the recorded allocation rows
